@@ -377,7 +377,34 @@ def check_summand(facts, rep):
         'devectorize': [('from_iter(map(iter(backward(arg1.trans, arg2)), closure<{closure#0}>))', ())],
         'devectorize::{closure#0}': [('(clone(index(arg1.^self.raw_gens, arg2.0)), clone(arg2.1))', ())],
     }
+    # devectorize written with a loop: for (i, a) in self.trans.backward(v).iter() { terms.push((raw_gens[i].clone(), a.clone())) }
+    from symex import apply_closure
+    db = facts.bodies.get(S + 'devectorize')
+    loop_form = None
+    if db is not None and (S + 'devectorize::{closure#0}') not in facts.bodies:
+        hp = SymEx(db, havoc_loops=True).run()
+        src, pairs = set(), set()
+        for p in hp:
+            for (fid, bb_, l), v in p.state.loop_entry.items():
+                if fid == 0 and strip(v)[0] == 'call' and strip(v)[1].endswith('into_iter'):
+                    src.add(dk(v))
+            for e in p.calls():
+                if e.name.split('::')[-1] == 'push' and len(e.args) == 2:
+                    pairs.add(re.sub(r'next\(mut _\d+\)\.Some\.0', 'IT', dk(e.args[1])))
+        rr = [dk(p.ret) for p in hp if p.end == 'return']
+        if src == {'into_iter(iter(backward(arg1.trans, arg2)))'} and pairs == {'(clone(index(arg1.raw_gens, IT.0)), clone(IT.1))'} and len(rr) == 1 and re.match(r'(collect|from_iter)\(into_iter\(loop\w+\)\)$', rr[0]):
+            loop_form = 'ok'
+        elif src and all('forward(' in x for x in src):
+            loop_form = 'swapped'
     for name, w in want.items():
+        if name.startswith('devectorize') and loop_form is not None:
+            if name == 'devectorize':
+                inst = 'Summand::devectorize|as tabulated'
+                if loop_form == 'ok':
+                    rep.ok('E19.H5-summand-maps', inst, 'loop over trans.backward(v): (raw_gens[i], a)')
+                else:
+                    rep.violation('E19.H5-summand-maps', inst, 'Summand::devectorize goes through trans.forward: coordinates -> chains must use trans.backward', where='yui-homology/src/conc/summand.rs')
+            continue
         got = rets(name)
         inst = 'Summand::%s|as tabulated' % name
         if got is None:
@@ -440,10 +467,11 @@ def check_summand(facts, rep):
     for p in SymEx(mb).run():
         if p.end != 'return':
             continue
-        ws = tuple(sorted((dk(('mref', e.lv)).replace('mut ', ''), dk(e.term)) for e in p.events if e.kind == 'write' and e.lv))
+        # a moved field and a cloned field are the same value
+        ws = tuple(sorted((dk(('mref', e.lv)).replace('mut ', ''), re.sub(r'^clone\((.*)\)$', r'\1', dk(e.term))) for e in p.events if e.kind == 'write' and e.lv))
         cs = tuple((e.name.split('::')[-1], tuple(dk(a).replace('mut ', '') for a in e.args)) for e in p.calls() if e.name.split('::')[-1] in ('merge', 'reduce', 'merged'))
         shapes.add((ws, cs))
-    w = {((('arg1.rank', 'arg2.rank'), ('arg1.tors', 'clone(arg2.tors)')), (('merge', ('arg1.trans', 'arg2.trans')), ('reduce', ('arg1.trans',))))}
+    w = {((('arg1.rank', 'arg2.rank'), ('arg1.tors', 'arg2.tors')), (('merge', ('arg1.trans', 'arg2.trans')), ('reduce', ('arg1.trans',))))}
     inst = 'Summand::merge|rank, tors from the finer summand; transforms composed self then other'
     if shapes == w:
         rep.ok('E19.H5-summand-maps', inst, 'trans.merge(other.trans); reduce()')
